@@ -190,7 +190,7 @@ def run(res):
     # ---- D3: refinement by non-reversal samples + stationarity of a third pass (implementation only, in the class)
     pick = [seqs[i] for i in inclass if len(seqs[i]) <= 30]
     rng.shuffle(pick)
-    pick = pick[:250 if quick else 3000]
+    pick = pick[:250 if quick else (3000 if common.NCPU >= 8 else 1000)]
     pairs = [(s, t) for s in pick for t in refinements(rng, s, 1)]
     o_ref = hcm.pmap(hcm._w_single, [t for _, t in pairs])
     base = {tuple(s): o for s, o in zip(seqs, outs)}
@@ -202,7 +202,7 @@ def run(res):
         b = sorted((r[0], r[1], r[2]) for r in hcm.load_rows(o[1][0]) if r[3] == 2)
         if a != b:
             res.violation(WHAT_REFINE, sequence=s, refined=t, observed=(a, b))
-    o3 = hcm.pmap(hcm._w_single3, pick[:150 if quick else 1500])
+    o3 = hcm.pmap(hcm._w_single3, pick[:150 if quick else (1500 if common.NCPU >= 8 else 500)])
     t3 = []
     for s, o in zip(pick, o3):
         if o[0] != 'ok':
